@@ -30,10 +30,14 @@
 (* Required behaviour (Variant = "required"): every class is registered,   *)
 (* to_dict writes and from_dict restores every attribute and child,        *)
 (* from_dict decodes every child slot, remove_class works on a copy.       *)
-(* Variant = "pinned" transcribes the tables of the pinned source          *)
-(* (registry of io/json.py, keys of each to_dict/from_dict, remove_class   *)
-(* popping from the caller's dictionary); TLC is expected to REJECT it     *)
-(* (MC_JsonRoundTrip_pinned_*.cfg), one named invariant per defect family. *)
+(* Variant = "pinned" transcribes the tables of the source as pinned       *)
+(* (commit 5a929d9, i.e. before the fix commits 332f355 c2f0ab2 0e733a0    *)
+(* 531eeb9 c52f10b d1f32e6: registry of io/json.py, keys of each           *)
+(* to_dict/from_dict, remove_class popping from the caller's dictionary);  *)
+(* TLC is expected to REJECT it (MC_JsonRoundTrip_pinned.cfg) and          *)
+(* MC_JsonRoundTrip_pinned_all.cfg records that all seven invariants fail. *)
+(* On that source the real class trees agreed with this variant's          *)
+(* prediction on 4193/4193 Load and 4973/5099 DecodeDict cases.            *)
 (***************************************************************************)
 EXTENDS Integers, Sequences, FiniteSets, TLC
 
